@@ -165,6 +165,8 @@ func (c *Conn) AsyncRead() {
 	if g.isOneshot {
 		g.IOExecute(func(pbuf *[]byte) {
 			for i := 0; i < g.MaxConnReadTimesPerEventLoop; i++ {
+				// the last round may have left the buffer cut to its count.
+				*pbuf = (*pbuf)[:cap(*pbuf)]
 				rc, n, err := c.ReadAndGetConn(pbuf)
 				if n > 0 {
 					*pbuf = (*pbuf)[:n]
@@ -205,6 +207,8 @@ func (c *Conn) AsyncRead() {
 		for {
 			// try to read all the data available.
 			for i := 0; i < g.MaxConnReadTimesPerEventLoop; i++ {
+				// the last round may have left the buffer cut to its count.
+				*pBuf = (*pBuf)[:cap(*pBuf)]
 				rc, n, err := c.ReadAndGetConn(pBuf)
 				if n > 0 {
 					*pBuf = (*pBuf)[:n]
